@@ -136,7 +136,7 @@ def worker(spec):
     except Exception:
         return {'counts': {}, 'viol': [], 'samples': [], 'distinct': [], 'incon': ['lexer worker: ' + traceback.format_exc()[-1500:]]}
 
-OPT = {0: (True, True), 7: (False, True), 8: (True, False), 9: (False, False), 3: (True, True), 4: (True, True)}
+OPT = {0: (True, True), 7: (False, True), 8: (True, False), 9: (False, False), 3: (True, True), 4: (True, True), 14: (True, True)}
 
 def _worker(spec):
     rnd = random.Random(spec['seed'])
